@@ -511,3 +511,42 @@ def check(ctx, run):  # noqa: F811
     run.require("C16.R3m", 5)
     if n_m < 5:
         raise AnalysisError(f"only {n_m} built-in model forwards could be interpreted")
+
+
+def factory_purity(ctx, run):
+    from ..purity import stores
+    # R3f: building a pricing module for a derivative leaves nothing on the derivative or on the factory (a module remembered with the
+    # derivative keeps the strike and call flag of the first request)
+    from ..interp import ClassRef
+    from ..term import Sym as _Sym
+    from .c07 import MOD as _MOD, MODULES as _MODULES
+    prog, interp = ctx.prog, ctx.interp
+    FQ = "pfhedge.nn.modules.bs.black_scholes.BlackScholesModuleFactory"
+    gfi = prog.lookup_method(FQ, "get_class_from_derivative")
+    if gfi is None:
+        raise AnalysisError("anchor vanished: BlackScholesModuleFactory.get_class_from_derivative")
+    registry = {dname: ClassRef(_MOD + mq) for mq, (fam, dname) in _MODULES.items()}
+    for mq, (fam, dname) in _MODULES.items():
+        dq = next((c for c in prog.classes if c.endswith("." + dname) and ".instruments.derivative." in c), None)
+        if dq is None:
+            raise AnalysisError(f"anchor vanished: derivative class {dname}")
+        fac = Obj(FQ, "factory", {"_modules": dict(registry)})
+        d_ = Obj(dq, "deriv", {"call": _Sym("d.call", ("bool",)), "strike": W.fl("d.strike")})
+        try:
+            res_f = interp.explore(gfi, [d_], {}, self_obj=fac)
+        except Unsupported as ex:
+            raise AnalysisError(f"get_class_from_derivative({dname}): {ex}")
+        st = stores(res_f)
+        run.oblige("C16.R3f", f"BlackScholes({dname}) leaves nothing on the derivative or the factory", not st, "; ".join(st))
+        if st:
+            run.fail(Finding("C16.R3f", gfi.qualname, f"{dname}: " + "; ".join(st)[:260], "a later request for the same derivative is answered with the module of the first one: its strike / call flag at that time",
+                             file=str(prog.modules[gfi.module].path), line=gfi.node.lineno))
+    run.require("C16.R3f", 4)
+
+
+_check_before_r3f = check
+
+
+def check(ctx, run):  # noqa: F811
+    factory_purity(ctx, run)  # first: the coverage scan below stops on an in-place site no entry point reaches
+    _check_before_r3f(ctx, run)
